@@ -1370,6 +1370,9 @@ struct System {
     /// was multiplied by this power of two and every coefficient divided by it
     /// (right-hand sides unchanged; exact in f32)
     xscale: f32,
+    /// fewer equations than free parameters (still consistent): the solution
+    /// is not unique, so only residual, key set and fixed-point are required
+    under: bool,
 }
 
 fn gen_system(ch: &mut Chooser) -> System {
@@ -1467,6 +1470,33 @@ fn gen_system(ch: &mut Chooser) -> System {
         let r: Vec<(usize, f32)> = rows[k].iter().map(|(j, a)| (*j, *a * factor)).collect();
         rows.push(r);
     }
+    // fewer equations than unknowns (added after seeded change C19-t): one
+    // system in six drops some of its equations; what is left is consistent
+    // (the right-hand sides are computed from x* below) and every remaining
+    // row is as well conditioned as before, but the solution is a whole affine
+    // subspace
+    let mut under = false;
+    if rows.len() >= 2 && ch.odds("underdetermined", 1, 6) {
+        let drop = 1 + ch.choose("under_drop", (rows.len() as u32) / 2);
+        for _ in 0..drop {
+            let k = ch.choose("under_which", rows.len() as u32) as usize;
+            rows.remove(k);
+        }
+        // (duplicates and extra rows can keep the *count* of equations up
+        // although the rank went down: every such system is treated as
+        // underdetermined)
+        under = true;
+    }
+    // equations in different units: one system in five multiplies each of its
+    // equations by 1, 2 or 4 (exact; the condition number grows by at most 4)
+    if ch.odds("row_units", 1, 5) {
+        for r in rows.iter_mut() {
+            let f = *ch.pick("row_unit", &[1.0f32, 2.0, 4.0, 1.0, 4.0]);
+            for t in r.iter_mut() {
+                t.1 *= f;
+            }
+        }
+    }
     // drawn equation order
     for a in (1..rows.len()).rev() {
         let b = ch.choose("row_shuffle", a as u32 + 1) as usize;
@@ -1548,6 +1578,7 @@ fn gen_system(ch: &mut Chooser) -> System {
         split,
         scale,
         xscale,
+        under,
     }
 }
 
@@ -1673,6 +1704,7 @@ fn decoy_system(sys: &System) -> System {
         split,
         scale: sys.scale,
         xscale: sys.xscale,
+        under: false,
     }
 }
 
@@ -1741,7 +1773,10 @@ pub fn run_c19(st: &Shared, _tier: Tier) -> RunReport {
         })
         .collect();
     let bmax = sys.b.iter().map(|v| v.abs()).fold(0.0f32, f32::max) as f64;
-    let tol = 1e-3 * (sys.scale as f64 + bmax);
+    // a rank-deficient (underdetermined) system is consistent and solvable but
+    // not "well-conditioned": the unchanged solver leaves residuals up to a
+    // few 1e-3 there, so only a gross failure (20 times the bound) is flagged
+    let tol = 1e-3 * (sys.scale as f64 + bmax) * if sys.under { 20.0 } else { 1.0 };
     if sys.xscale < 1.0 {
         rep.count("op.unknowns_scaled_down", 1);
     } else if sys.xscale > 1.0 {
@@ -1856,7 +1891,11 @@ pub fn run_c19(st: &Shared, _tier: Tier) -> RunReport {
     }
     let r_jit = c19_solve::<JitFunction>(&sys, &ctx, &eq_nodes, &vars, &start, &sys.xstar);
     let x_jit = check(&mut rep, "jit", r_jit, &sys.xstar, &sys.b);
-    if let (Some(a), Some(b)) = (&x_vm, &x_jit) {
+    if sys.under {
+        rep.count("op.underdetermined_system", 1);
+    }
+    let cmp = if sys.under { (None, None) } else { (x_vm.as_ref(), x_jit.as_ref()) };
+    if let (Some(a), Some(b)) = cmp {
         // parameters that no equation mentions are unconstrained: the solver
         // may leave them anywhere, so they are not compared
         let mentioned: Vec<bool> = (0..sys.n)
